@@ -250,7 +250,22 @@ func watcherGoroutine() bool {
 	return strings.Contains(string(buf), "(*watch).watch")
 }
 
+// results of earlier error queries, per worker, looked at again before the worker's next operation
+var heldResults, heldErrors sync.Map
+
 func c12Op(cache *cdi.Cache, kind string, r *rand.Rand, dirs []string, w int, mkSpec func(*rand.Rand, string) *specs.Spec) {
+	if m, ok := heldResults.Load(w); ok {
+		for d, e := range m.(map[string]error) {
+			_, _ = d, e.Error()
+		}
+	}
+	if m, ok := heldErrors.Load(w); ok {
+		for _, es := range m.(map[string][]error) {
+			for _, e := range es {
+				_ = e.Error()
+			}
+		}
+	}
 	readDevice := func(d *cdi.Device) {
 		if d == nil {
 			return
@@ -285,18 +300,24 @@ func c12Op(cache *cdi.Cache, kind string, r *rand.Rand, dirs []string, w int, mk
 		for _, s := range cache.GetVendorSpecs("vendor.com") {
 			cache.GetSpecErrors(s)
 		}
-	case "GetErrors":
-		for _, errs := range cache.GetErrors() {
-			for _, e := range errs {
-				_ = e.Error()
-			}
-		}
 	case "GetSpecDirectories":
 		cache.GetSpecDirectories()
 	case "GetSpecDirErrors":
-		for _, e := range cache.GetSpecDirErrors() {
+		m := cache.GetSpecDirErrors()
+		for _, e := range m {
 			_ = e.Error()
 		}
+		// what a query returned is the caller's: it is looked at again later, while the
+		// cache goes on living (results are snapshots, not views)
+		heldResults.Store(w, m)
+	case "GetErrors":
+		m := cache.GetErrors()
+		for _, es := range m {
+			for _, e := range es {
+				_ = e.Error()
+			}
+		}
+		heldErrors.Store(w, m)
 	case "InjectDevices":
 		devs := cache.ListDevices()
 		if len(devs) > 3 {
